@@ -42,6 +42,14 @@ def check(ck):
     repo = ck.repo
 
     with ck.rule("R1"):
+        r1(ck, repo)
+    with ck.rule("R2"):
+        r2(ck, repo)
+    _rest(ck, repo)
+
+
+def r1(ck, repo):
+    if True:
         f = repo.func(COMMON, "handle_field_error")
         fv = FuncView(f)
         p = f.positional_params  # raw_error, field_nodes, path, return_type, execution_context
@@ -68,7 +76,10 @@ def check(ck):
             ck.ob(f"handle_field_error table: non-null={nn}", classes == want, f, f.node, construct=f"table:non_null={nn}",
                   detail=f"got {sorted(classes)}, want {sorted(want)}" + atoms.note())
 
-    with ck.rule("R2"):
+
+
+def r2(ck, repo):
+    if True:
         f = repo.func(COMMON, "complete_value_catching_error")
         fv = FuncView(f)
         p = f.positional_params  # result, info, execution_context, field_nodes, path, return_type, output_coercer
@@ -91,6 +102,9 @@ def check(ck):
         ck.ob("every caught failure goes through handle_field_error(exception, field nodes, path, return type, ctx) and its value is returned",
               ok, f, hs[0] if hs else f.node, construct="funnel:handler")
 
+
+
+def _rest(ck, repo):
     with ck.rule("R3"):
         f = repo.func("tartiflette/coercers/outputs/non_null_coercer.py", "non_null_coercer")
         fv = FuncView(f)
